@@ -21,3 +21,5 @@ def check(ctx: Ctx) -> None:
     CT.r_buffer(ctx, "R17.13")
     # the command line the session parses is the text the client typed: one codec on both sides of the wire
     CT.r_wire_codec(ctx, "R17.14")
+    CT.r_dispatch_names(ctx, "R17.15")
+    CT.r_dispatch_kind(ctx, "R17.16")
